@@ -124,6 +124,7 @@ Section StepLaw.
   Variable E : env.
   Hypothesis Hwf : wf E = true.
   Notation hs := (e_handlers E).
+  Notation nv_of v w := (if e_store_original E then v else w).
 
   Lemma chk_true k : chk k true = []. Proof. reflexivity. Qed.
 
@@ -180,7 +181,7 @@ Section StepLaw.
     unfold step. destruct o as [v| |].
     - destruct (e_validate E v) as [w|]; [|reflexivity]. destruct (e_kind E) as [m|].
       + destruct (is_nil hs); [reflexivity|]. destruct (match m with MNone => true | _ => negb (readable E s =? w) end);
-          [destruct (notify E (OVal (readable E s)) w)|]; reflexivity.
+          [destruct (notify E (OVal (readable E s)) (nv_of v w))|]; reflexivity.
       + destruct (notify E OUndefined w). reflexivity.
     - destruct (e_kind E); [|reflexivity]. destruct s; [reflexivity|]. destruct (notify E OUninitialized (e_default E)). reflexivity.
     - destruct (e_kind E) as [m|]; [|reflexivity]. destruct s as [old|]; [|reflexivity].
@@ -203,8 +204,8 @@ Section StepLaw.
   Proof.
     unfold step, law_step. destruct o as [v| |].
     - (* Assign *)
-      destruct (e_validate E v) as [w|]; [|reflexivity].
-      destruct (e_kind E) as [m|] eqn:K.
+      destruct (e_validate E v) as [w0|]; [|reflexivity].
+      destruct (e_kind E) as [m|] eqn:K; [set (w := if e_store_original E then v else w0); cbv beta iota|rename w0 into w].
       + (* normal trait *)
         destruct (is_nil hs) eqn:Hnil.
         * (* no notifier at all *)
@@ -411,10 +412,11 @@ Section Spec.
 
   (* old and new of every call are truthful *)
   Lemma calls_truthful s o c : In c (o_calls (snd (step E s o))) ->
-    (exists v w, o = Assign v /\ e_validate E v = Some w /\ snd c = w /\
+    (exists v w, o = Assign v /\ e_validate E v = Some w /\
        match e_kind E with
-       | TEvent => snd (fst c) = OUndefined
-       | TNormal _ => snd (fst c) = OVal (readable E s) /\ readable E (fst (step E s o)) = w
+       | TEvent => snd (fst c) = OUndefined /\ snd c = w
+       | TNormal _ => snd (fst c) = OVal (readable E s) /\ readable E (fst (step E s o)) = snd c
+                      /\ snd c = (if e_store_original E then v else w)
        end)
     \/ (o = Delete /\ snd (fst c) = OVal (readable E s) /\ snd c = e_default E
         /\ readable E (fst (step E s o)) = e_default E).
@@ -422,11 +424,11 @@ Section Spec.
     destruct o as [v| |].
     - unfold step. destruct (e_validate E v) as [w|] eqn:Hv; [|intros []].
       destruct (e_kind E) as [m|].
-      + destruct (is_nil hs); [intros []|].
+      + destruct (is_nil hs); [intros []|]. set (nv := if e_store_original E then v else w).
         destruct (match m with MNone => true | _ => negb (readable E s =? w) end).
-        * pose proof (notify_truthful E (OVal (readable E s)) w c) as T.
-          destruct (notify E (OVal (readable E s)) w) as [cs sk]. cbn [fst snd o_calls] in *. intros Hc.
-          destruct (T Hc) as [T1 T2]. left. exists v, w. repeat split; assumption.
+        * pose proof (notify_truthful E (OVal (readable E s)) nv c) as T.
+          destruct (notify E (OVal (readable E s)) nv) as [cs sk]. cbn [fst snd o_calls] in *. intros Hc.
+          destruct (T Hc) as [T1 T2]. left. exists v, w. repeat split; try assumption. rewrite T2. reflexivity.
         * intros [].
       + pose proof (notify_truthful E OUndefined w c) as T.
         destruct (notify E OUndefined w) as [cs sk]. cbn [fst snd o_calls] in *. intros Hc.
@@ -477,7 +479,8 @@ Section Spec.
     destruct o as [v| |].
     - unfold step. destruct (e_validate E v) as [w|]; [|reflexivity]. destruct (e_kind E) as [m|].
       + destruct (is_nil hs); [reflexivity|]. destruct (match m with MNone => true | _ => negb (readable E s =? w) end); [|reflexivity].
-        pose proof (notify_sink E (OVal (readable E s)) w Hwf) as N. destruct (notify E (OVal (readable E s)) w). exact N.
+        set (nv := if e_store_original E then v else w).
+        pose proof (notify_sink E (OVal (readable E s)) nv Hwf) as N. destruct (notify E (OVal (readable E s)) nv). exact N.
       + pose proof (notify_sink E OUndefined w Hwf) as N. destruct (notify E OUndefined w). exact N.
     - destruct (step_read_silent s) as [C S]. rewrite C, S. reflexivity.
     - unfold step. destruct (e_kind E) as [m|]; [|reflexivity]. destruct s as [old|]; [|reflexivity].
@@ -490,7 +493,8 @@ End Spec.
 (* ================= a raising handler changes nothing else ================= *)
 Definition set_raises (f : nat -> bool) (E : env) : env :=
   {| e_eq := e_eq E; e_ne := e_ne E; e_validate := e_validate E; e_default := e_default E; e_kind := e_kind E;
-     e_handlers := map (fun h => mkHandler (h_id h) (h_mech h) (f (h_id h))) (e_handlers E) |}.
+     e_handlers := map (fun h => mkHandler (h_id h) (h_mech h) (f (h_id h))) (e_handlers E);
+     e_store_original := e_store_original E |}.
 
 Definition visible (ob : obs) : outcome * option val * list call := (o_out ob, o_slot ob, o_calls ob).
 
@@ -512,14 +516,15 @@ Section Transparent.
     fst (step (set_raises fr E) s o) = fst (step E s o)
     /\ visible (snd (step (set_raises fr E) s o)) = visible (snd (step E s o)).
   Proof.
-    destruct o as [v| |]; unfold step; cbn [e_validate e_kind e_default set_raises].
+    destruct o as [v| |]; unfold step; cbn [e_validate e_kind e_default e_store_original set_raises].
     - destruct (e_validate E v) as [w|]; [|split; reflexivity]. destruct (e_kind E) as [m|].
       + assert (is_nil (e_handlers (set_raises fr E)) = is_nil (e_handlers E)) as -> by (cbn; destruct (e_handlers E); reflexivity).
         destruct (is_nil (e_handlers E)); [split; reflexivity|].
         change (readable (set_raises fr E) s) with (readable E s).
         destruct (match m with MNone => true | _ => negb (readable E s =? w) end); [|split; reflexivity].
-        pose proof (notify_calls_set_raises fr (OVal (readable E s)) w) as N.
-        destruct (notify (set_raises fr E) (OVal (readable E s)) w), (notify E (OVal (readable E s)) w).
+        set (nv := if e_store_original E then v else w).
+        pose proof (notify_calls_set_raises fr (OVal (readable E s)) nv) as N.
+        destruct (notify (set_raises fr E) (OVal (readable E s)) nv), (notify E (OVal (readable E s)) nv).
         cbn in N. subst. split; reflexivity.
       + pose proof (notify_calls_set_raises fr OUndefined w) as N.
         destruct (notify (set_raises fr E) OUndefined w), (notify E OUndefined w). cbn in N. subst. split; reflexivity.
@@ -557,7 +562,7 @@ End Transparent.
 Definition incoherent_env : env :=
   {| e_eq := fun _ _ => CTrue; e_ne := fun _ _ => CTrue; e_validate := fun v => Some v; e_default := 0;
      e_kind := TNormal MEquality;
-     e_handlers := [mkHandler 0 Otc false; mkHandler 1 Observe false] |}.
+     e_handlers := [mkHandler 0 Otc false; mkHandler 1 Observe false]; e_store_original := false |}.
 Lemma mechanisms_disagree_when_incoherent :
   wf incoherent_env = true /\
   map (strip) (calls_of 0 (all_calls (run incoherent_env None [Assign 1]))) = [(OVal 0, 1)] /\
